@@ -322,12 +322,65 @@ Proof.
 Qed.
 
 (* ------------------------------------------------------------------ the unguarded parsers do raise *)
+(* 4301 ones: int() refuses them.  Proved symbolically (the number itself is never computed) *)
 Definition huge_digits : str := repeat 49 4301.
+
+Lemma huge_all_digits : all_digits huge_digits.
+Proof. unfold huge_digits, all_digits. apply Forall_forall. intros c Hc. apply repeat_spec in Hc. subst. reflexivity. Qed.
+
+Lemma huge_nonempty : huge_digits <> [].
+Proof. unfold huge_digits. change 4301%nat with (S 4300). discriminate. Qed.
+
+Lemma py_int_huge : py_int huge_digits = None.
+Proof.
+  unfold py_int. rewrite (strip_digits _ huge_all_digits). unfold int_signed.
+  pose proof (digit_head_not_sign _ huge_all_digits huge_nonempty) as Hh.
+  assert (E : (match huge_digits with 45 :: s' => (true, s') | 43 :: s' => (false, s') | _ => (false, huge_digits) end)
+              = (false, huge_digits)).
+  { unfold huge_digits. change 4301%nat with (S 4300). reflexivity. }
+  rewrite E, (int_unsigned_digits _ huge_all_digits huge_nonempty).
+  unfold huge_digits. rewrite repeat_length. reflexivity.
+Qed.
 
 Lemma parse_range_unguarded_raises anch zn :
   parse_range_unguarded anch zn (Some (s_bytes_eq ++ huge_digits ++ [45])) = Raise ValueError.
-Proof. destruct anch, zn; vm_compute; reflexivity. Qed.
+Proof.
+  unfold parse_range_unguarded.
+  assert (N : s_bytes_eq ++ huge_digits ++ [45] <> []) by discriminate.
+  destruct (s_bytes_eq ++ huge_digits ++ [45]) as [|c s] eqn:E; [congruence|]. rewrite <- E.
+  change (s_bytes_eq ++ huge_digits ++ [45]) with (s_bytes_eq ++ huge_digits ++ [45] ++ []).
+  unfold range_parse. rewrite (rx_range_canonical anch _ [] huge_all_digits (Forall_nil _)).
+  rewrite (nonempty_s_true _ huge_nonempty). cbn [negb].
+  unfold int_or_raise. rewrite py_int_huge. reflexivity.
+Qed.
+
+Lemma pcr_unguarded_unfold c s : strip_by is_space_str (c :: s) = c :: s ->
+  parse_content_range_unguarded (Some (c :: s)) =
+  match crange_parse (c :: s) with Ok r => Ok (crange_val r) | Raise e => Raise e end.
+Proof. intros St. unfold parse_content_range_unguarded. rewrite St. reflexivity. Qed.
+
+Lemma crange_parse_huge : crange_parse (s_bytes_sp ++ [42; 47] ++ huge_digits) = Raise ValueError.
+Proof.
+  unfold crange_parse, rx_content_range, s_bytes_sp. rewrite match_lit_self.
+  change ([42; 47] ++ huge_digits) with (42 :: 47 :: huge_digits). rewrite !eat_self.
+  rewrite <- (app_nil_r huge_digits) at 1.
+  rewrite (eat_digit 42 _ [] huge_all_digits huge_nonempty eq_refl).
+  rewrite (take_digits_all _ huge_all_digits), (nonempty_s_true _ huge_nonempty).
+  unfold int_or_raise. rewrite py_int_huge. reflexivity.
+Qed.
 
 Lemma parse_content_range_unguarded_raises :
   parse_content_range_unguarded (Some (s_bytes_sp ++ [42; 47] ++ huge_digits)) = Raise ValueError.
-Proof. vm_compute. reflexivity. Qed.
+Proof.
+  destruct (@exists_last _ huge_digits huge_nonempty) as [pre [x Ex]].
+  assert (Dx : is_digit x = true).
+  { pose proof huge_all_digits as A. rewrite Ex in A. apply Forall_app in A. destruct A as [_ A].
+    inversion A; subst; assumption. }
+  assert (St : strip_by is_space_str (s_bytes_sp ++ [42; 47] ++ huge_digits) = s_bytes_sp ++ [42; 47] ++ huge_digits).
+  { rewrite Ex. apply (strip_by_noop _ _ 98 x ([121; 116; 101; 115; 32; 42; 47] ++ pre)); [left; reflexivity|reflexivity|].
+    unfold is_digit in Dx. unfold is_space_str. lia. }
+  change (s_bytes_sp ++ [42; 47] ++ huge_digits) with (98 :: ([121; 116; 101; 115; 32; 42; 47] ++ huge_digits)) in *.
+  rewrite (pcr_unguarded_unfold _ _ St).
+  change (98 :: ([121; 116; 101; 115; 32; 42; 47] ++ huge_digits)) with (s_bytes_sp ++ [42; 47] ++ huge_digits).
+  rewrite crange_parse_huge. reflexivity.
+Qed.
